@@ -47,7 +47,8 @@ fn snap(wx: &WorldExec) -> Snap {
 }
 
 fn exec(wx: &mut WorldExec, line: &str) -> String {
-    if line == "reload" { wx.reload_bounded() } else { wx.op(line) }
+    // `WorldExec::op` bounds `reload` itself and analyses the pass (order-dependent passes set `wx.unspecified`)
+    wx.op(line)
 }
 
 /// result line without the handle number (`ok h3 v:5` → `ok v:5`)
@@ -379,8 +380,11 @@ impl FaultEngine {
         loader_log().clear();
         LOG_LOADERS.store(true, Ordering::Relaxed);
         let mut clean_outs = vec![];
-        for line in probe { let out = exec(&mut wx, line); rec.op(line.clone(), out.clone()); clean_outs.push(out); }
+        for line in probe { let out = exec(&mut wx, line); rec.op(line.clone(), out.clone()); clean_outs.push(out); if wx.unspecified { break; } }
         LOG_LOADERS.store(false, Ordering::Relaxed);
+        // the pass of this scenario is order-dependent (known findings F-C05d / F-C05e, unrecorded look-ups): neither values nor fault
+        // positions are determined from here on
+        if wx.unspecified { rec.stat(format!("truncated/{}", wx.unspecified_why)); return; }
         let (ios1, lf1) = (wx.src.lock().ios, loader_faults().0);
         let reads: Vec<String> = wx.src.lock().read_log.get(ios0..ios1).map(|s| s.to_vec()).unwrap_or_default();
         let invocations: Vec<(String, String, usize)> = loader_log().clone();
@@ -409,7 +413,26 @@ impl FaultEngine {
         let mut plan: Vec<Fault> = vec![];
         for k in 0..n_reads { for kind in KINDS { plan.push(Fault { line: format!("fault.read {k} {kind}"), is_read: true, k, what: kind.to_string() }); } }
         for k in 0..n_loads { for what in ["err", "panic"] { plan.push(Fault { line: format!("fault.load {k} {what}"), is_read: false, k, what: what.to_string() }); } }
+        let wx_files: BTreeMap<String, Vec<u8>> = wx.src.lock().files.iter().filter_map(|((id, ext), st)| if ext == "s" { if let crate::types::FileSt::Bytes(b, _) = st { Some((id.clone(), b.to_vec())) } else { None } } else { None }).collect();
         drop(wx);
+        // a reload pass over several independent assets reloads them in hash-set order, which changes from one cache instance to the
+        // next: WHICH asset a fault index hits is then not determined, neither for the oracle nor for the model. Such scenarios are
+        // run cleanly (above) but no fault is injected.
+        if is_reload {
+            let top: Vec<(String, String)> = invocations.iter().filter(|inv| inv.2 == 0).map(|inv| (inv.0.clone(), inv.1.clone())).collect();
+            // the order is determined only when the reloaded assets form a chain of dependents (each later one reaches every earlier
+            // one through recorded look-ups in the scripts)
+            let files = wx_files.clone();
+            let refs_of = |k: &(String, String)| -> Vec<(String, String)> { crate::exec_world::script_refs_of_kinds(files.get(&k.1).map(|b| &b[..]), "+=?!@").into_iter().collect() };
+            let reaches = |from: &(String, String), to: &(String, String)| -> bool {
+                let mut seen = std::collections::BTreeSet::new();
+                let mut todo = vec![from.clone()];
+                while let Some(x) = todo.pop() { if &x == to { return true; } if !seen.insert(x.clone()) { continue; } todo.extend(refs_of(&x)); }
+                false
+            };
+            let chain = (0..top.len()).all(|j| (0..j).all(|i| reaches(&top[j], &top[i])));
+            if !chain { rec.stat("reload-scenario-with-independent-assets(no-fault-injected:order-dependent)"); return; }
+        }
         for f in &plan {
             rec.op("reset", "ok");
             let (mut wx, _) = self.world(cfg, fe, mode, setup, rec, Some(&setup_outs));
@@ -434,8 +457,10 @@ impl FaultEngine {
                     break;
                 }
                 outs.push(out);
+                if wx.unspecified { break; }
             }
             if stuck { STUCK_SEEN.fetch_add(1, Ordering::Relaxed); return; }
+            if wx.unspecified { rec.stat(format!("truncated/{}", wx.unspecified_why)); continue; }
             let consumed = if f.is_read { wx.src.lock().ios > ios_before + f.k } else { loader_faults().0 > lf_before + f.k };
             if !consumed { rec.stat("fault-not-reached"); }
             let after = snap(&wx);
@@ -505,6 +530,8 @@ impl FaultEngine {
                     }
                 }
                 // the asset whose own reload was hit keeps its previous value (and is not reported as reloaded)
+                // (scenarios whose pass reloads independent assets never get here: which asset a fault index hits would depend on the
+                // hash-set order of that cache instance; for a chain of dependents the clean run's loader log tells it)
                 if let Some((ty, id, 0)) = hit {
                     let key = (ty.clone(), id.clone());
                     if let (Some(b), Some(a)) = (before.get(&key), after.get(&key)) {
